@@ -20,6 +20,9 @@ type c17Case struct {
 	F8 int64  // 8 * frequency
 	Fn string // duration | events | roundtrip | duration-order | events-order
 	N  int64  // event count / duration in ns (the larger argument for the order cases)
+	// FB, when non-zero, is the rate as float64 bits (any rate, not only multiples of 1/8 Hz); the oracle
+	// is then exact rational arithmetic (math/big) instead of 128-bit integers
+	FB uint64 `json:"rate_bits,omitempty"`
 }
 
 const day = int64(86400) * 1e9
@@ -42,8 +45,50 @@ func absDiff128(a, b, c, d uint64) float64 {
 
 func ulp(x float64) float64 { x = math.Abs(x); return math.Nextafter(x, math.Inf(1)) - x }
 
+// c17RunAny: any positive finite rate, oracle in math/big.
+func c17RunAny(cs c17Case) (fs []F) {
+	hz := math.Float64frombits(cs.FB)
+	f := signal.Frequency(hz)
+	fail := func(kind, format string, a ...any) {
+		fs = append(fs, F{Key: "Frequency/" + kind, Msg: fmt.Sprintf("f=%v Hz (bits %#x): ", hz, cs.FB) + fmt.Sprintf(format, a...)})
+	}
+	rf := new(big.Rat).SetFloat64(hz)
+	e9 := big.NewRat(1e9, 1)
+	off := func(got int64, exact *big.Rat) (float64, float64) {
+		d := new(big.Rat).Sub(new(big.Rat).SetInt64(got), exact)
+		x, _ := d.Abs(d).Float64()
+		ex, _ := exact.Float64()
+		return x, ex
+	}
+	switch cs.Fn {
+	case "duration":
+		d := int64(f.Duration(int(cs.N)))
+		exact := new(big.Rat).Quo(new(big.Rat).Mul(big.NewRat(cs.N, 1), e9), rf)
+		if diff, ex := off(d, exact); d < 0 || diff > 0.5+4*ulp(ex)+1e-9*0.5 {
+			fail("duration", "Duration(%d) = %d ns, exact %.6f ns: off by %.6f ns, more than half a nanosecond plus rounding", cs.N, d, ex, diff)
+		}
+	case "events":
+		e := int64(f.Events(time.Duration(cs.N)))
+		exact := new(big.Rat).Quo(new(big.Rat).Mul(big.NewRat(cs.N, 1), rf), e9)
+		if diff, ex := off(e, exact); e < 0 || diff > 0.5+4*ulp(ex)+1e-9*0.5 {
+			fail("events", "Events(%d ns) = %d, exact %.6f: off by %.6f, more than half an event plus rounding", cs.N, e, ex, diff)
+		}
+	default:
+		cs2 := cs
+		cs2.FB = 0
+		return c17RunF(cs2, f)
+	}
+	return
+}
+
 func c17Run(cs c17Case) (fs []F) {
-	f := signal.Frequency(float64(cs.F8) / 8)
+	if cs.FB != 0 {
+		return c17RunAny(cs)
+	}
+	return c17RunF(cs, signal.Frequency(float64(cs.F8)/8))
+}
+
+func c17RunF(cs c17Case, f signal.Frequency) (fs []F) {
 	fail := func(kind, format string, a ...any) {
 		fs = append(fs, F{Key: "Frequency/" + kind, Msg: fmt.Sprintf("f=%v Hz: ", float64(f)) + fmt.Sprintf(format, a...)})
 	}
@@ -163,7 +208,7 @@ func init() {
 				jb := jobs[i]
 				var n int64
 				chk := func(fn string, arg int64) {
-					cs := c17Case{jb.f8, fn, arg}
+					cs := c17Case{F8: jb.f8, Fn: fn, N: arg}
 					n++
 					if fs := c17Run(cs); len(fs) > 0 {
 						c.Fail(cs, fs...)
@@ -251,12 +296,75 @@ func init() {
 				}
 				c.Eval(n, n)
 			})
-			c.Sample(c17Case{8 * 44100, "duration", 44100 * 86400})
-			c.Sample(c17Case{8*48000 + 3, "events", day})
-			c.Sample(c17Case{8 * 1000000, "roundtrip", 86400000000})
+			// rates that are not multiples of 1/8 Hz: next to whole rates at every decimal and binary scale
+			// (r +- 10^-k, r(1 +- 2^-k)), pulled-down and thirds; oracle in exact rational arithmetic
+			var anyRates []float64
+			for _, r := range []float64{1, 2, 3, 10, 50, 1000, 8000, 44100, 48000, 96000, 192000, 1e6} {
+				for k := 1; k <= 15; k++ {
+					anyRates = append(anyRates, r+math.Pow(10, -float64(k)), r-math.Pow(10, -float64(k)), r+5*math.Pow(10, -float64(k)), r-5*math.Pow(10, -float64(k)))
+				}
+				for k := 8; k <= 52; k += 4 {
+					anyRates = append(anyRates, r*(1+math.Ldexp(1, -k)), r*(1-math.Ldexp(1, -k)))
+				}
+				anyRates = append(anyRates, r/1.001, r*1.001, r+1.0/3, r+0.1, math.Nextafter(r, 0), math.Nextafter(r, 2*r))
+			}
+			c.ParallelFor(len(anyRates), func(i int) {
+				hz := anyRates[i]
+				if !(hz > 0) {
+					return
+				}
+				fb := math.Float64bits(hz)
+				var n int64
+				chk := func(fn string, arg int64) {
+					cs := c17Case{Fn: fn, N: arg, FB: fb}
+					n++
+					if fs := c17Run(cs); len(fs) > 0 {
+						c.Fail(cs, fs...)
+					}
+				}
+				maxN := int64(hz * 86400)
+				f := signal.Frequency(hz)
+				count := func(k int64) {
+					if k < 0 || k > maxN {
+						return
+					}
+					chk("duration", k)
+					if k > 0 {
+						chk("duration-order", k)
+					}
+					if hz <= 1e6 {
+						chk("roundtrip", k)
+					}
+					d := int64(f.Duration(int(k)))
+					for _, dd := range []int64{d - 1, d, d + 1} {
+						if dd >= 0 && dd <= day {
+							chk("events", dd)
+							if dd > 0 {
+								chk("events-order", dd)
+							}
+						}
+					}
+				}
+				for k := int64(0); k <= 200; k++ {
+					count(k)
+				}
+				for _, sec := range []int64{1, 60, 3600, 86400} {
+					for dl := int64(-2); dl <= 2; dl++ {
+						count(int64(hz*float64(sec)) + dl)
+						if d := sec*1e9 + dl; d <= day {
+							chk("events", d)
+						}
+					}
+				}
+				c.Eval(n, n)
+			})
+			c.Set("rates_off_the_eighth_hertz_lattice", len(anyRates))
+			c.Sample(c17Case{F8: 8 * 44100, Fn: "duration", N: 44100 * 86400})
+			c.Sample(c17Case{F8: 8*48000 + 3, Fn: "events", N: day})
+			c.Sample(c17Case{F8: 8 * 1000000, Fn: "roundtrip", N: 86400000000})
 			c.Set("exhaustive", false)
 			c.Set("rates", len(jobs))
-			c.Set("rule", fmt.Sprintf("rates: the 15 standard audio rates and their 7 fractional neighbours r+j/8, every integer rate 1..10^6, the fractional lattice r+j/8 for r<=2000, and j/8 Hz; per rate: every count 0..N (N=%d for standard rates, %d otherwise), every count within the last window before f*86400, +-2 around every rounding tie (first and last 20 ties in range), for Events the images of those counts +-1 ns, the last window before 24 h, the ties, every whole second up to 24 h for the standard rates, and (integer rates) +-3 around every argument where d*f or n*10^9 crosses 2^31, 2^32, 2^53, 2^62, 2^63, 2^64 (also minus the rounding addends); bounded-exhaustive within these windows (the full domain is a continuum x 10^11, hence exhaustive:false); every evaluation is a distinct (rate, function, argument) and non-trivial", denseStd, denseInt))
+			c.Set("rule", fmt.Sprintf("rates: the 15 standard audio rates and their 7 fractional neighbours r+j/8, every integer rate 1..10^6, the fractional lattice r+j/8 for r<=2000, j/8 Hz, and (exact rational oracle, counts 0..200 and around 1 s, 1 min, 1 h, 24 h) the neighbours r +- 10^-k, r +- 5*10^-k (k=1..15), r(1 +- 2^-k), r/1.001, r*1.001, r+1/3, r+0.1 and the adjacent floats of 12 whole rates; per lattice rate: every count 0..N (N=%d for standard rates, %d otherwise), every count within the last window before f*86400, +-2 around every rounding tie (first and last 20 ties in range), for Events the images of those counts +-1 ns, the last window before 24 h, the ties, every whole second up to 24 h for the standard rates, and (integer rates) +-3 around every argument where d*f or n*10^9 crosses 2^31, 2^32, 2^53, 2^62, 2^63, 2^64 (also minus the rounding addends); bounded-exhaustive within these windows (the full domain is a continuum x 10^11, hence exhaustive:false); every evaluation is a distinct (rate, function, argument) and non-trivial", denseStd, denseInt))
 			c.Assume("rates are multiples of 1/8 Hz so that the oracle is exact integer arithmetic", "float rounding slack: 4 ulp of the exact value")
 		},
 		RunCase: func(c *core.Ctx, raw json.RawMessage) []F { return c17Run(decode[c17Case](raw)) },
